@@ -677,6 +677,31 @@ func c16Seqs() []c16Seq {
 		{"float64", func(n int) (stick.Value, []stick.Value, []stick.Value, bool, bool) {
 			return 1.5, nil, nil, false, false
 		}, false, 0},
+		// zero values: a container of zeros is not empty, a zero scalar is not iterable
+		{"[N]int of zeros", func(n int) (stick.Value, []stick.Value, []stick.Value, bool, bool) {
+			a := reflect.New(reflect.ArrayOf(n, reflect.TypeOf(0))).Elem()
+			v := make([]stick.Value, n)
+			for i := range v {
+				v[i] = 0
+			}
+			return a.Interface(), idxKeys(n), v, true, false
+		}, true, 8},
+		{"[]string of empty strings", func(n int) (stick.Value, []stick.Value, []stick.Value, bool, bool) {
+			x := make([]string, n)
+			v := make([]stick.Value, n)
+			for i := range v {
+				v[i] = ""
+			}
+			return x, idxKeys(n), v, true, false
+		}, true, 8},
+		{"int 0", func(n int) (stick.Value, []stick.Value, []stick.Value, bool, bool) { return 0, nil, nil, false, false }, false, 0},
+		{"empty string", func(n int) (stick.Value, []stick.Value, []stick.Value, bool, bool) { return "", nil, nil, false, false }, false, 0},
+		{"false", func(n int) (stick.Value, []stick.Value, []stick.Value, bool, bool) {
+			return false, nil, nil, false, false
+		}, false, 0},
+		{"zero struct", func(n int) (stick.Value, []stick.Value, []stick.Value, bool, bool) {
+			return c16Emb{}, nil, nil, false, false
+		}, false, 0},
 		// containers whose Go type also has a String method
 		{"named []string with String()", func(n int) (stick.Value, []stick.Value, []stick.Value, bool, bool) {
 			x := make(c16Tags, n)
